@@ -14,7 +14,8 @@ REQUIRED_THEOREMS = [
     'C13_layout', 'C13_blocks', 'C13_special_dims', 'C13_special_dims_mem', 'C13_scatter', 'C13_gather',
     'C13_scatter_gather', 'C13_all_heterogeneous_counterexample', 'C13_wrapped_pooled_counterexample',
     'C13_noise_is_standard_normal', 'C13_value', 'C13_value_times', 'C13_call_val', 'C13_call_neginf',
-    'C13_grad', 'C13_grad_entry', 'C13_names_ids']
+    'C13_grad', 'C13_grad_entry', 'C13_names_ids', 'C13_constructor_keeps_arguments',
+    'C13_constructor_repeatable', 'C13_constructor_alias_counterexample']
 RULE = ('random population model (1-3 sub-models out of centred / non-centred Gaussian and log-normal, '
         'truncated Gaussian, pooled, heterogeneous, covariate-wrapped, reduced, 1-2 dims each; composed or '
         'bare), every filter class and compositions of them, fixed or free sigma, additive or log-scale '
@@ -140,6 +141,61 @@ def wire_filter(c):
     return ['comp', fs]
 
 
+def construct_posterior(chi, c):
+    return chi.PopulationFilterLogPosterior(
+        c.arg_filter, c.arg_times, c.arg_mech, c.pm, c.prior, sigma=c.arg_sigma,
+        error_on_log_scale=c.log_scale, n_samples=c.n_s, covariates=c.arg_cov)
+
+
+def observe_args(c):
+    """what the caller can see (public API only) of the objects it handed to the constructor"""
+    snap = {}
+    with np.errstate(all='ignore'):
+        try:
+            v = c.arg_filter.compute_log_likelihood(c.probe.copy())
+            snap['filter.log_likelihood(probe)'] = float(np.ma.filled(v, np.nan)) if not np.ma.is_masked(v) \
+                else -math.inf
+            _, g = c.arg_filter.compute_sensitivities(c.probe.copy())
+            snap['filter.sensitivities(probe)'] = np.asarray(np.ma.filled(g, np.nan), float) \
+                if math.isfinite(snap['filter.log_likelihood(probe)']) else None
+        except Exception as e:  # noqa
+            snap['filter.log_likelihood(probe)'] = core.errkind(e)
+        snap['filter.n_times'] = int(c.arg_filter.n_times())
+        snap['filter.n_observables'] = int(c.arg_filter.n_observables())
+        snap['times'] = np.array(c.arg_times, float)
+        snap['sigma'] = None if c.arg_sigma is None else list(c.arg_sigma)
+        snap['covariates'] = None if c.arg_cov is None else np.array(c.arg_cov, float)
+        snap['mechanistic_model.has_sensitivities'] = bool(c.arg_mech.has_sensitivities())
+        snap['mechanistic_model.parameters'] = list(c.arg_mech.parameters())
+        snap['mechanistic_model.outputs'] = list(c.arg_mech.outputs())
+        snap['population_model.parameter_names'] = list(c.pm.get_parameter_names())
+        snap['population_model.n_parameters'] = int(c.pm.n_parameters())
+        snap['population_model.dim_names'] = list(c.pm.get_dim_names())
+        snap['population_model.n_ids'] = int(c.pm.n_ids())
+        snap['log_prior(probe)'] = float(c.prior(c.probe_top))
+    return snap
+
+
+def same_obs(a, b):
+    if a is None or b is None:
+        return a is None and b is None
+    if isinstance(a, np.ndarray) or isinstance(b, np.ndarray):
+        a, b = np.asarray(a), np.asarray(b)
+        return a.shape == b.shape and core.close(a, b, 1e-12, 0.0)
+    if isinstance(a, float) or isinstance(b, float):
+        return core.close(a, b, 1e-12, 0.0)
+    return a == b
+
+
+def check_args_unchanged(ctx, c, inp, when):
+    """the constructor / an evaluation must not change what the caller handed over: the same objects are
+    legitimately reused (several posteriors from one filter, one per chain, another n_samples ...)"""
+    now = observe_args(c)
+    for key, before in c.snap0.items():
+        ctx.spec('C13.arguments_unchanged/' + key, same_obs(before, now[key]), inp,
+                 {'when': when, 'before the first constructor call': before, 'now': now[key]})
+
+
 def build(chi, c, rng):
     """constructs the posterior; returns (posterior, n_top, cfg for the model)"""
     pm2 = copy.deepcopy(c.pm)
@@ -156,10 +212,16 @@ def build(chi, c, rng):
         else:
             priors.append(pints.UniformLogPrior(0.0, float(rng.uniform(3, 6))))
     c.prior = pints.ComposedLogPrior(*priors) if n_top > 1 else priors[0]
-    mech = toy.ToyModel(c.R, c.pm.n_dim(), c.toy_seed)
-    post = chi.PopulationFilterLogPosterior(
-        make_filter(chi, c), c.times, mech, c.pm, c.prior, sigma=None if c.sigma_free else list(c.sigma),
-        error_on_log_scale=c.log_scale, n_samples=c.n_s, covariates=c.cov)
+    # the objects the caller hands over (the SAME objects are used for every constructor call of the case)
+    c.arg_filter = make_filter(chi, c)
+    c.arg_times = np.array(c.times, float)
+    c.arg_mech = toy.ToyModel(c.R, c.pm.n_dim(), c.toy_seed)
+    c.arg_sigma = None if c.sigma_free else list(c.sigma)
+    c.arg_cov = None if c.cov is None else np.array(c.cov, float)
+    c.probe = np.random.default_rng([c.toy_seed, 13]).uniform(0.5, 3.0, (c.n_s, c.R, c.T))
+    c.probe_top = np.random.default_rng([c.toy_seed, 14]).uniform(0.6, 1.4, n_top)
+    c.snap0 = observe_args(c)
+    post = construct_posterior(chi, c)
     subs2 = pm2.get_population_models() if isinstance(pm2, chi.ComposedPopulationModel) else [pm2]
     cfg_subs = []
     for (k, nd), sm in zip(c.kinds, subs2):
@@ -294,6 +356,7 @@ def run_case(ctx, chi, rng, c, label='gen'):
              nontrivial=('%s/%s/%s/%s/%d/%s' % (c.kinds, c.fkinds, c.sigma_free, c.log_scale, c.n_s, order_cls))
              if (special or order_cls == 'unsorted') else False, sample=inp)
     n = int(post.n_parameters())
+    check_args_unchanged(ctx, c, inp, 'after the constructor')
     # ---------------- layout: counts
     lay = ctx.model('C13.layout', cfg)
     ctx.agree('C13.layout.n_parameters', n, lay[4], inp)
@@ -347,6 +410,7 @@ def run_case(ctx, chi, rng, c, label='gen'):
         except Exception as e:  # noqa
             err = core.errkind(e)
             v = v2 = s1 = g = None
+    check_args_unchanged(ctx, c, inp, 'after __call__ and evaluateS1')
     if cls != 'regular':
         # wrapped_pooled: expected counterexample (known finding).  all_heterogeneous_multi: repaired by
         # edde12c, must hold now.  ONE combined property check with the specific tag
@@ -402,6 +466,8 @@ def run_case(ctx, chi, rng, c, label='gen'):
         ev2 = ctx.model('C13.eval', *(args + [np.asarray(dbottom, float).reshape(c.n_s, -1).tolist(),
                                               np.asarray(dtheta, float).flatten().tolist()]))
         ctx.agree('C13.grad', g, np.array(ev2[5], float), inp, rtol=1e-7, atol=1e-9)
+    # ---------------- a second posterior from the SAME argument objects (call sequence)
+    second_posterior(ctx, chi, c, post, inp, x, v, s1, g, ev, n)
     # ---------------- the property on the real code
     tagc = cls
     sv = spec_value(chi, c, post, cfg, x, n_pop, n_top)
@@ -452,6 +518,56 @@ def run_case(ctx, chi, rng, c, label='gen'):
                 blk = 'pop' if k < n_pop else 'sigma' if k < n_top else 'bottom' if k < end_bottom else 'eps'
                 ctx.spec('C13.grad/%s/%s' % (tagc, blk), ok, inp,
                          {'x': x, 'coordinate': k, 'name': names_s[k], 'analytic': g[k], 'fd': est})
+
+
+def own_filter_on_probe(post, c):
+    """the posterior's own filter (public getter) on the probe at the SORTED times"""
+    order = np.argsort(c.arg_times)
+    with np.errstate(all='ignore'):
+        v = post.get_log_likelihood().compute_log_likelihood(c.probe[:, :, order].copy())
+    return -math.inf if np.ma.is_masked(v) else float(v)
+
+
+def second_posterior(ctx, chi, c, post, inp, x, v, s1, g, ev, n):
+    try:
+        with np.errstate(all='ignore'):
+            post2 = construct_posterior(chi, c)
+            v_b = float(post2(x.copy()))
+            s1_b, g_b = post2.evaluateS1(x.copy())
+            s1_b = float(s1_b)
+            g_b = np.asarray(g_b, float)
+            names_b = list(post2.get_parameter_names(include_ids=True))
+            own1 = own_filter_on_probe(post, c)
+            own2 = own_filter_on_probe(post2, c)
+        err = None
+    except Exception as e:  # noqa
+        err = core.errkind(e)
+    ctx.spec('C13.same_arguments_same_posterior/constructible', err is None, inp, {'error': err})
+    if err is not None:
+        return
+    check_args_unchanged(ctx, c, inp, 'after a second constructor call with the same objects')
+    same_v = core.close(v, v_b, 1e-12) or not (math.isfinite(v) or math.isfinite(v_b))
+    ctx.spec('C13.same_arguments_same_posterior/value', same_v and
+             (core.close(s1, s1_b, 1e-12) or not (math.isfinite(s1) or math.isfinite(s1_b))), inp,
+             {'x': x, 'first posterior': v, 'second posterior (same filter object, same times, ...)': v_b,
+              'S1 first': s1, 'S1 second': s1_b})
+    if math.isfinite(v) and math.isfinite(v_b):
+        ctx.spec('C13.same_arguments_same_posterior/gradient', g.shape == g_b.shape and
+                 core.close(g, g_b, 1e-10, 1e-12), inp, {'x': x})
+    ctx.spec('C13.same_arguments_same_posterior/names', names_b == list(post.get_parameter_names(include_ids=True))
+             and int(post2.n_parameters()) == n, inp, {})
+    ctx.spec('C13.same_arguments_same_posterior/own_filter', core.close(own1, own2, 1e-12), inp,
+             {'first posterior own filter on probe': own1, 'second': own2})
+    # the model: two constructor calls on the same object in the store
+    ms = ctx.model('C13.construct_seq', wire_filter(c), [float(t) for t in c.arg_times], c.probe.tolist())
+    if len(ms) == 4:
+        now = observe_args(c)['filter.log_likelihood(probe)']
+        ctx.agree('C13.construct_seq.caller_before', c.snap0['filter.log_likelihood(probe)'], ms[0], inp)
+        ctx.agree('C13.construct_seq.caller_after', now, ms[1], inp)
+        ctx.agree('C13.construct_seq.own_first', own1, ms[2], inp)
+        ctx.agree('C13.construct_seq.own_second', own2, ms[3], inp)
+    if isinstance(ev[0], float) and math.isfinite(ev[0]) and math.isfinite(v_b):
+        ctx.agree('C13.call.second_posterior', v_b, ev[0], inp)
 
 
 CORPUS = [
